@@ -153,6 +153,75 @@ def task_medium(n):
     out.sample({"medium_n": n}, limit=1)
     return out.dump()
 
+LARGE_N_QUICK = [1023, 1024, 1025, 1026, 2049, 4097, 8193, 10000, 10001, 12500]
+LARGE_N_THOROUGH = [16384, 16385, 20011]
+
+
+def task_pointer_large(n):
+    """join_numpy / sum_by_p_id on long tables: every combination of a pointer layout (far forwards, far backwards, neighbours, everyone
+    to the first / last / middle row, mixed with 'no pointer'), an id labelling (dense sorted, dense reversed, sparse unsorted) and a target
+    dtype, against a dict reference.  Long tables are where block-wise or chunked implementations differ from the definition."""
+    out = Partial()
+    idx = np.arange(n)
+    labellings = {
+        "dense-sorted": idx.copy(),
+        "dense-reversed": idx[::-1].copy(),
+        "sparse-unsorted": ((idx * 7919) % n) * 3 + 10,  # 7919 is prime and larger than every n used: a permutation of 0..n-1, spread
+    }
+    layouts = {
+        "mirror": n - 1 - idx,  # the first rows point to the last rows and vice versa
+        "next": (idx + 1) % n,
+        "previous": (idx - 1) % n,
+        "to-first": np.zeros(n, dtype=int),
+        "to-last": np.full(n, n - 1),
+        "to-middle": np.full(n, n // 2),
+        "half-turn": (idx + n // 2) % n,
+        "stride": (idx * 7919 + 1) % n,
+    }
+    targets = {"float": (idx % 97) * 0.5 + 1.0, "int": (idx % 89) + 1, "bool": idx % 3 == 0}
+    for lname, p_id in labellings.items():
+        assert len(set(p_id.tolist())) == n
+        for yname, where in layouts.items():
+            for holes in (False, True):
+                if holes and yname not in ("mirror", "stride"):
+                    continue
+                ptr_pos = np.where(where == idx, (where + 1) % n, where)  # nobody points to themselves
+                ptr = p_id[ptr_pos]
+                if holes:
+                    ptr = np.where(idx % 4 == 1, -1, ptr)
+                valid = ptr >= 0 if holes else np.ones(n, dtype=bool)
+                out.add_states(1)
+                for tname, tgt in targets.items():
+                    miss = {"float": -7.0, "int": -7, "bool": False}[tname]
+                    case = {"n": n, "labelling": lname, "layout": yname, "with_missing": holes, "dtype": tname}
+                    try:
+                        got = np.asarray(join_numpy(ptr, p_id, tgt, miss))
+                    except Exception as e:  # noqa: BLE001
+                        out.violation(f"join_numpy:large:exception:{type(e).__name__}", case, repr(e)[:200])
+                        continue
+                    out.step()
+                    want = np.where(valid, tgt[ptr_pos], miss)
+                    if got.shape != want.shape or not np.array_equal(got, want):
+                        i = int(np.argmax(got != want)) if got.shape == want.shape else -1
+                        out.violation(f"join_numpy:large:{yname}:value", {**case, "position": i},
+                                      f"join_numpy on {n} rows ({lname} ids, layout {yname}): row {i} gets {got[i]!r}, the row pointed to holds {want[i]!r}")
+                    if got.dtype.kind != np.asarray(tgt).dtype.kind:
+                        out.violation(f"join_numpy:large:dtype:{tname}", case, f"{got.dtype} for a {tname} target")
+                col = ((idx % 13) - 3) * 0.25
+                try:
+                    got_s = np.asarray(AG.sum_by_p_id(col, ptr, p_id))
+                    out.step()
+                    want_s = np.zeros(n)
+                    np.add.at(want_s, ptr_pos[valid], col[valid])
+                    if not np.array_equal(got_s, want_s):
+                        i = int(np.argmax(got_s != want_s))
+                        out.violation(f"sum_by_p_id:large:{yname}:value", {"n": n, "labelling": lname, "layout": yname, "position": i},
+                                      f"sum_by_p_id on {n} rows: row {i} gets {got_s[i]!r}, the rows pointing to it sum to {want_s[i]!r}")
+                except Exception as e:  # noqa: BLE001
+                    out.violation(f"sum_by_p_id:large:exception:{type(e).__name__}", {"n": n, "labelling": lname, "layout": yname}, repr(e)[:200])
+    out.sample({"large_n": n}, limit=1)
+    return out.dump()
+
 
 def task_pointer(arg):
     """sum_by_p_id and join_numpy over all pointer columns in {-1, -5, valid ids} and all store orders."""
@@ -391,6 +460,10 @@ def replay(case):
         g = np.asarray(got)
         gl = _py(g) if g.dtype.kind == "M" else g.tolist()
         return gl == want, f"got {gl} expected {want}"
+    if "layout" in case and "n" in case:
+        part = task_pointer_large(case["n"])
+        bad = [v for v in part["violations"] if f":{case['layout']}:" in v[0] or "exception" in v[0]]
+        return not bad, "; ".join(v[2] for v in bad[:2])
     return True, "re-run the check for this case kind"
 
 
@@ -406,6 +479,9 @@ def run(tier):
         rep.merge(part)
     for part in harness.pmap(task_medium, [6, 31, 32, 33, 64, 255, 256, 257, 300, 1000, 1025, 4097]):
         rep.merge(part)
+    large = LARGE_N_QUICK + (LARGE_N_THOROUGH if thorough else [])
+    for part in harness.pmap(task_pointer_large, large[::-1]):
+        rep.merge(part)
     ptasks = [(n, False) for n in (1, 2, 3)] + [(n, True) for n in (1, 2, 3, 4)] + ([(4, False), (5, True)] if thorough else [])
     for part in harness.pmap(task_pointer, ptasks):
         rep.merge(part)
@@ -417,7 +493,7 @@ def run(tier):
     for d in (dates if thorough else dates[-1:]):
         check_precedence(rep, d.isoformat())
     rep.bound = {"array_length": nmax, "group_id_alphabet": GIDS, "full_value_alphabets_up_to": 5 if thorough else 4,
-                 "pointer_n": 4 if thorough else 3, "graph_dates": [d.isoformat() for d in dates]}
+                 "pointer_n": 4 if thorough else 3, "pointer_long_tables": large, "graph_dates": [d.isoformat() for d in dates]}
     rep.assumptions = ["reference mc/ref/aggregate.py (dict of member lists, math.fsum); dyadic values make float sums exact",
                        "grouped_count's dtype is not constrained (implementation returns float counts)", "integer group sums are exact up to 2**53 (numpy_groupies accumulates in float64); larger sums are outside the alphabet",
                        "by-p_id kinds other than sum raise NotImplementedError in the numpy backend (loud, accepted)"]
